@@ -294,7 +294,7 @@ fn c07_o4_recycle_bumps_generation() {
     std::mem::forget(w);
 }
 
-// @verif prop=C06 obl=O4 tier=thorough bounds="struct updated in the current revision (read-locked) or already write-locked" covers=0/1
+// @verif prop=C06 obl=O4 tier=quick bounds="struct updated in the current revision (read-locked) or already write-locked" covers=0/1
 // @+ encodes="tracked_struct::IngredientImpl::<VTr>::delete_entity"
 /// C06/C23: deleting a struct that was validated (and may be borrowed) in the current revision panics instead of freeing it.
 #[kani::proof]
